@@ -170,6 +170,7 @@ def _dmrg_(psi, H : MpsMpoOBC | Sequence[tuple[MpsMpoOBC, float]], project, meth
     if opts_svd is None and method == '2site':
         raise YastnError("DMRG: provide opts_svd for %s method." % method)
 
+    sweep, E, dE, max_dw = 0, E_old, None, None  # reported when max_sweeps < 1
     for sweep in range(1, max_sweeps + 1):
         if method == '1site':
             _dmrg_sweep_1site_(env, opts_eigs=opts_eigs, Schmidt=Schmidt, precompute=precompute)
